@@ -33,6 +33,9 @@ type TestSpec struct {
 	ThoroughOnly bool
 	// Race: run this test from the -race build (others use the plain build).
 	Race bool
+	// Engine-B style tests: number of designs per shard (VERIF_CHECKS); the
+	// rapid checks then count value cases per method.
+	DesignsQuick, DesignsThorough int
 }
 
 // FuzzSpec is a native fuzz target, thorough tier only, time-boxed.
@@ -231,9 +234,10 @@ func runEngineA(id string, spec Spec, tier string, seed int64) int {
 				"VERIF_STATS="+filepath.Join(p.dir, "stats.json"),
 				"VERIF_SEED="+strconv.FormatInt(p.seed, 10),
 				"VERIF_TIER="+tier,
-				"VERIF_CHECKS="+strconv.Itoa(p.checks),
+				"VERIF_CHECKS="+strconv.Itoa(designsOr(p.test, tier, p.checks)),
 				"VERIF_SHARD="+strconv.Itoa(p.shard),
 				"VERIF_REPO="+repoRoot(),
+				"VERIF_REPLAY_OUT="+filepath.Join(p.dir, "replayout"),
 				"GORACE=halt_on_error=0",
 			)
 			t0 := time.Now()
@@ -304,7 +308,7 @@ func runEngineA(id string, spec Spec, tier string, seed int64) int {
 			rp := saveReplayA(root, id, p)
 			lines = append(lines, fmt.Sprintf("VIOLATION property=%s replay=%s", id, rp))
 			fmt.Println(tail(p.out, 60))
-		case p.test.Rapid && p.checks > 0 && p.passedN < p.checks:
+		case p.test.Rapid && p.checks > 0 && p.passedN < p.checks && p.test.DesignsQuick == 0:
 			status = "short"
 			inconclusive++
 			lines = append(lines, fmt.Sprintf("INCONCLUSIVE property=%s test=%s shard=%d ran %d of %d cases", id, p.test.Name, p.shard, p.passedN, p.checks))
@@ -379,6 +383,16 @@ func runEngineA(id string, spec Spec, tier string, seed int64) int {
 	return 0
 }
 
+func designsOr(t TestSpec, tier string, checks int) int {
+	if tier == "thorough" && t.DesignsThorough > 0 {
+		return t.DesignsThorough
+	}
+	if tier != "thorough" && t.DesignsQuick > 0 {
+		return t.DesignsQuick
+	}
+	return checks
+}
+
 func workers() int {
 	if v := os.Getenv("VERIF_WORKERS"); v != "" {
 		if n, err := strconv.Atoi(v); err == nil && n > 0 {
@@ -443,6 +457,37 @@ func saveReplayA(root, id string, p *procResult) string {
 	}
 	mb, _ := json.MarshalIndent(meta, "", " ")
 	_ = os.WriteFile(filepath.Join(dir, "meta.json"), mb, 0o644)
+	// design-level replays written by the test itself (design.json, design.go, case.json …)
+	first := ""
+	if entries, err := os.ReadDir(filepath.Join(p.dir, "replayout")); err == nil {
+		for _, e := range entries {
+			if !e.IsDir() {
+				continue
+			}
+			sub := filepath.Join(dir, e.Name())
+			_ = os.MkdirAll(sub, 0o755)
+			files, _ := os.ReadDir(filepath.Join(p.dir, "replayout", e.Name()))
+			for _, f := range files {
+				if b, err := os.ReadFile(filepath.Join(p.dir, "replayout", e.Name(), f.Name())); err == nil {
+					_ = os.WriteFile(filepath.Join(sub, f.Name()), b, 0o644)
+				}
+			}
+			dm := map[string]any{}
+			for k, v := range meta {
+				dm[k] = v
+			}
+			delete(dm, "failfile")
+			dm["design_replay"] = true
+			dmb, _ := json.MarshalIndent(dm, "", " ")
+			_ = os.WriteFile(filepath.Join(sub, "meta.json"), dmb, 0o644)
+			if first == "" {
+				first = sub
+			}
+		}
+	}
+	if first != "" {
+		return first
+	}
 	return dir
 }
 
